@@ -25,7 +25,9 @@ for m in cat:
         b = subprocess.run(["cargo", "build", "--offline", "-q"], cwd="/repo", capture_output=True, text=True)
         if b.returncode != 0:
             print("%-28s DOES-NOT-COMPILE" % m["id"]); results.append((m["id"], "nocompile")); continue
-        p = subprocess.run(["./check", m["property"], "quick"], cwd=ROOT, capture_output=True, text=True)
+        scratch = os.path.join(ROOT, ".work", "evidence-scratch")
+        os.makedirs(scratch, exist_ok=True)
+        p = subprocess.run(["./check", m["property"], "quick"], cwd=ROOT, capture_output=True, text=True, env=dict(os.environ, VERIF_EVIDENCE_DIR=scratch))
         viol = [l for l in p.stdout.splitlines() if l.startswith("VIOLATION")]
         first = next((l for l in p.stdout.splitlines() if l.startswith("  ")), "")
         verdict = "CAUGHT" if p.returncode == 1 and viol else ("MISSED" if p.returncode == 0 else "TOOL-ERROR rc=%d" % p.returncode)
